@@ -193,13 +193,17 @@ def exBitsM : Bits := toBits 8 1 ++ toBits 6 1 ++ [false, true] ++ exColEq 7 9
 
 example : quietList false exTM = true := by decide +kernel
 
-/-- the coder accepts it (only the non-missing counts must agree); subset 0 is rendered and converted back; the
-    renderer of subset 1 reads ITS count (`range(None)`: TypeError) -/
+/-- Finding F24.  The coder BEFORE the repair (`decodeCompressedLax`: `_assert_equal_values_of_index` compared only the
+    non-missing counts) accepts it; subset 0 is rendered and converted back; the renderer of subset 1 reads ITS count
+    (`range(None)`: TypeError).  The repaired coder (`decodeCompressed`: every count equals the first one, missing
+    included) refuses the message with the library error, which is why `Spec.sameCountsList` is now derivable for
+    decoded output (Props/C09Factors.lean). -/
 theorem C09_compressed_missing_count_breaks :
-    ((decodeCompressed exTM 2 exBitsM).toOption.map fun r =>
+    ((decodeCompressedLax exTM 2 exBitsM).toOption.map fun r =>
       (r.1.map (·.vals), (wireAll exTM true r.1).toOption.map fun trees =>
         (r.1.zip trees).map fun p => (renderNested p.1 p.2 >>= nestedJsonToFlat).toOption)) =
-    some ([[.int 1, .int 9], [.missing, .int 9]], some [some [.int 1, .int 9], none]) := by decide +kernel
+    some ([[.int 1, .int 9], [.missing, .int 9]], some [some [.int 1, .int 9], none]) ∧
+    decodeCompressed exTM 2 exBitsM = .error .lib := by decide +kernel
 
 /-! ## Stage 2: 206YYY and the bitmap machine without associated fields
 
